@@ -81,6 +81,8 @@ def build(grammar: str, opt: bool):
 def run_modes(grammar: str, rule: str, text: str, start_pos: int = 0) -> dict[str, tuple]:
     from pest.exceptions import PestParsingError
 
+    from .limits import DidNotTerminate, time_limit
+
     out = {}
     for opt in (False, True):
         try:
@@ -92,8 +94,11 @@ def run_modes(grammar: str, rule: str, text: str, start_pos: int = 0) -> dict[st
         for nm, f in (("interp", p.parse), ("gen", gparse)):
             key = nm + ("+opt" if opt else "")
             try:
-                prs = f(rule, text, start_pos=start_pos)
+                with time_limit(10):
+                    prs = f(rule, text, start_pos=start_pos)
                 out[key] = ("ok", tree_of(prs), tagged_tree_of(prs))
+            except DidNotTerminate as e:
+                out[key] = ("raised", f"parse {e}")
             except PestParsingError as e:
                 out[key] = ("fail", e.state.furthest_pos)
             except RecursionError:
